@@ -9,7 +9,7 @@ class Fragment(References, Validation, Line):
   RECORD_TYPE = "F"
   POSFIELDS = ["sid", "external", "s_beg", "s_end", "f_beg", "f_end",
                "alignment"]
-  PREDEFINED_TAGS = ["VN", "TS"]
+  PREDEFINED_TAGS = ["TS"]
   STORAGE_KEY = "external"
   DATATYPE = {
     "sid" : "identifier_gfa2",
